@@ -236,6 +236,11 @@ func (a *BoolArg) Parse() error {
 	if e != nil {
 		return e
 	}
+	// RFC 6020 ABNF: true-keyword / false-keyword only (ParseBool also
+	// takes 1, 0, t, f, T, F, TRUE, FALSE, True, False)
+	if a.arg != "true" && a.arg != "false" {
+		return errors.New("invalid boolean argument: " + string(a.arg))
+	}
 	a.b = b
 	return nil
 }
